@@ -36,9 +36,34 @@ func (ec *evalCtx) evalCall(call *ast.CallExpr) Value {
 	}
 	var args []Value
 	sig, _ := ec.info.TypeOf(call.Fun).(*types.Signature)
-	if len(call.Args) == 1 && sig != nil && sig.Params().Len() > 1 {
+	_, argIsTuple := ec.info.TypeOf(firstOrNil(call.Args)).(*types.Tuple)
+	if len(call.Args) == 1 && sig != nil && argIsTuple {
 		tv := ec.eval(call.Args[0]).(*TupleV)
-		args = tv.Vs
+		tup := ec.info.TypeOf(call.Args[0]).(*types.Tuple)
+		for i, v := range tv.Vs {
+			var pt types.Type
+			if sig.Variadic() && i >= sig.Params().Len()-1 {
+				pt = sig.Params().At(sig.Params().Len() - 1).Type().(*types.Slice).Elem()
+			} else if i < sig.Params().Len() {
+				pt = sig.Params().At(i).Type()
+			}
+			if i < tup.Len() {
+				v = ec.convertTo(v, tup.At(i).Type(), pt)
+			}
+			args = append(args, v)
+		}
+		// f(g()) with variadic f: pack the tail
+		if sig.Variadic() {
+			n := sig.Params().Len() - 1
+			if len(args) >= n {
+				rest := args[n:]
+				var packed Value = nilSlice()
+				if len(rest) > 0 {
+					packed = sliceLit(append([]Value(nil), rest...))
+				}
+				args = append(append([]Value(nil), args[:n]...), packed)
+			}
+		}
 	} else {
 		for i, a := range call.Args {
 			v := ec.eval(a)
@@ -71,6 +96,9 @@ func (ec *evalCtx) evalCall(call *ast.CallExpr) Value {
 				args = append(append([]Value(nil), args[:n]...), packed)
 			}
 		}
+	}
+	if ec.fc.gen != nil {
+		ec.genHook(call, calleeFunc(ec.info, call), recv, args)
 	}
 	v := ec.callWith(call, recv, args)
 	ec.fc.applyUses(ec.st, "after "+ec.fc.callTag[call])
@@ -331,6 +359,9 @@ func (ec *evalCtx) applyContract(c *Contract, fn *types.Func, call *ast.CallExpr
 	pre := ec.st.Clone()
 	sc := &evalCtx{fc: fc, st: ec.st, spec: true, scope: scope, pkg: calleePkg, noLocals: true, pol: 1}
 	for k, r := range c.Requires {
+		if !e.applies(r) {
+			continue
+		}
 		t := sc.evalBool(r.Expr)
 		fc.obligeNamed(ec.st, fmt.Sprintf("%s#call.%s.requires.%d", fc.name, tag, k+1), "requires", t, call.Pos(), r.Text)
 	}
@@ -418,9 +449,26 @@ func (ec *evalCtx) applyContract(c *Contract, fn *types.Func, call *ast.CallExpr
 		conjuncts = append(conjuncts, x)
 	}
 	for _, en := range c.Ensures {
-		flatten(en.Expr)
+		if e.applies(en) {
+			flatten(en.Expr)
+		}
 	}
 	for _, en := range conjuncts {
+		// a boolean result asserted outright: bind it to the constant
+		if id, ok := en.(*ast.Ident); ok {
+			if _, isRes := resultNames[id.Name]; isRes {
+				post.assignSpec(id, True, resultNames, len(results))
+				continue
+			}
+		}
+		if ue, ok := en.(*ast.UnaryExpr); ok && ue.Op == token.NOT {
+			if id, ok := ue.X.(*ast.Ident); ok {
+				if _, isRes := resultNames[id.Name]; isRes {
+					post.assignSpec(id, False, resultNames, len(results))
+					continue
+				}
+			}
+		}
 		// assignment form for reference-like values:  <modified location or result> == expr
 		if be, ok := en.(*ast.BinaryExpr); ok && be.Op == token.EQL && post.assignable(be.X, c, resultNames) {
 			cur := post.tryEval(be.X)
@@ -757,4 +805,11 @@ func likeElem(el Value, fn string, i *Term) Value {
 		return &IfaceV{Tag: App(fn+".tag", SInt, i), Id: App(fn+".id", SInt, i), Payloads: map[string]Value{}}
 	}
 	return App(fn, SInt, i)
+}
+
+func firstOrNil(xs []ast.Expr) ast.Expr {
+	if len(xs) == 0 {
+		return nil
+	}
+	return xs[0]
 }
